@@ -197,6 +197,13 @@ Theorem C10_align_first_vector_meets_upper : forall k hu hl b,
 Proof. exact align_first_vector_meets_upper. Qed.
 Print Assumptions C10_align_first_vector_meets_upper.
 
+(* Delegating the post-truncation renormalisation to the split (renorm=True) would keep the state normalised only for
+   the cutoff modes sum2 / rsum2; the modelled 2-site update (explicit division, tied per mode on every run) does for all. *)
+Theorem C10_split_renorm_only_for_sum2 : forall m,
+  (keeps_frobenius_norm m = true <-> (m = CSum2 \/ m = CRsum2)) /\ dmrg2_normalised_after_truncation m = true.
+Proof. exact split_renorm_table. Qed.
+Print Assumptions C10_split_renorm_only_for_sum2.
+
 (* non-vacuity: sigma_y + 1 = B^dagger B with B = (1, -i); psi = (1, i) has <H> = 2 >= -1 * 2,
    the conjugate state (what the DMRG stack evaluates) sits exactly on the bound *)
 Example C10_variational_example :
